@@ -33,6 +33,10 @@ def run(chk):
     r01i(chk)
     r01j(chk)
     r01k(chk)
+    from .c10 import r10h
+
+    r10h(chk, 'R01.l')
+    r01m(chk)
 
 
 # ---------------------------------------------------------------------------
@@ -624,3 +628,39 @@ def r01k(chk, rid='R01.k'):
         ok = n.id not in seen
         chk.ob(rid, rel, 'ColorValue._setCssText', f'`{what}` runs only with a validated component count', ok,
                "reachable with any number of components: `rgb(`, `rgb(1` or `hsl(` at the end of input raise IndexError/ValueError out of parseString")
+
+
+def r01m(chk, rid='R01.m'):
+    chk.rule(rid, 'no iterator wraps itself inside a loop: an assignment `x = g(x, ...)` in a loop body, where g is a generator function of the package, stacks one generator frame per iteration - the nesting depth then grows with the length of the input and a long enough input ends in RecursionError')
+    eff_gen = {}
+    for rel, m in chk.repo.modules.items():
+        if not rel.startswith('cssutils/') or '/tests/' in rel:
+            continue
+        for q, fn in m.functions():
+            body_nodes = [x for x in ast.walk(fn) if m.enclosing_def(x) is fn]
+            if any(isinstance(x, (ast.Yield, ast.YieldFrom)) for x in body_nodes):
+                eff_gen[(rel, q)] = fn
+    gen_names = {q.split('.')[-1] for _, q in eff_gen}
+    n = 0
+    for rel, m in chk.repo.modules.items():
+        if not rel.startswith('cssutils/') or '/tests/' in rel or rel.endswith(('sac.py', 'cssvalue.py')):
+            continue
+        for q, fn in m.functions():
+            for loop in ast.walk(fn):
+                if not isinstance(loop, (ast.While, ast.For)):
+                    continue
+                for st in ast.walk(loop):
+                    if isinstance(st, ast.Assign) and len(st.targets) == 1 and isinstance(st.targets[0], ast.Name) and isinstance(st.value, ast.Call) and m.enclosing_def(st) is fn:
+                        x = st.targets[0].id
+                        callee = call_name(st.value).split('.')[-1]
+                        if any(isinstance(a, ast.Name) and a.id == x for a in st.value.args) and callee in gen_names:
+                            n += 1
+                            chk.ob(rid, rel, q, f'`{text(st)}` inside a loop', False, f'{callee} is a generator function: every iteration adds a frame around `{x}`')
+    chk.ob(rid, '<package>', 'R01.m', f'{len(eff_gen)} generator functions; {n} self-wrapping assignments in loops', True, trivial=True)
+    # the expected count is zero: exercise the matcher on a positive example on every run
+    from sa.core import Module
+
+    ex = Module('<example>', None, src='def gen(t):\n    yield from t\n\ndef parse(tokens):\n    while True:\n        tokens = gen(tokens)\n')
+    hit = [st for st in ast.walk(ex.tree) if isinstance(st, ast.Assign) and isinstance(st.value, ast.Call) and any(isinstance(a, ast.Name) and a.id == st.targets[0].id for a in st.value.args)]
+    if len(hit) != 1:
+        raise AnalysisError('R01.m: positive example not recognised')
